@@ -139,7 +139,7 @@ class Dag:
 # generator
 
 NUM_POOL = (0, 1, 2, 3, 5, 7, -1, -4, 10, 0.5, 1.5, -2.25, 0.1, 100, 12.75)
-TEXT_POOL = ('txt', 'b', 'Abc', 'z z', 'x', 'Q')
+TEXT_POOL = ('txt', 'b', 'Abc', 'z z', 'x', 'Q', "'q", "'")
 NUMTEXT_POOL = ('7', '0', '-3', '1.5')
 SHEET_NAMES = ('S', 'Sh2', 'My Sheet', 'Calc 2', 'Copy (2)', 'Data 1', 'T_1')
 AGGS = ('SUM', 'AVERAGE', 'MIN', 'MAX', 'COUNT')
@@ -169,6 +169,7 @@ DEFAULT_KNOBS = dict(
     ranges=True, names=True, cse=True, intersection=True, multicolon=True,
     rowcol=True, unbounded=True, text=True, index=True, percent=True,
     abs_refs=True, sheet_refs=True, lead_consts=3,
+    iferr=True, rowcol_noarg=True, union=True, sumproduct=True,
 )
 
 
@@ -176,7 +177,8 @@ def draw_knobs(rnd, **override):
     """swarm: every run enables its own subset of grammar features"""
     k = dict(DEFAULT_KNOBS)
     for feat in ('ranges', 'names', 'cse', 'intersection', 'multicolon', 'rowcol',
-                 'unbounded', 'text', 'index', 'percent', 'abs_refs', 'sheet_refs'):
+                 'unbounded', 'text', 'index', 'percent', 'abs_refs', 'sheet_refs',
+                 'iferr', 'rowcol_noarg', 'union', 'sumproduct'):
         k[feat] = rnd.random() < 0.7
     k['ranges'] = rnd.random() < 0.85
     k['p_const'] = rnd.choice((0.2, 0.35, 0.5))
@@ -338,6 +340,14 @@ class SpecGen:
                 self.declared_extra += [a for a in self.rect_addrs(ra) + self.rect_addrs(rb)
                                         if a not in self.rect_addrs(rect)]
                 return txt, self.rect_addrs(rect)
+        if k.get('union') and 0.70 < roll <= 0.78 and r2 > r1 and c2 > c1 and sheet == self.cur_sheet:
+            # range operator between a range and a cell, parenthesised so that it is applied
+            # at run time: (A1:B2):C3 reads the bounding rectangle A1:C3
+            col1, colm, col2 = (rc_coord(1, c1)[:-1], rc_coord(1, c2 - 1)[:-1] if c2 - 1 >= c1 else None,
+                                rc_coord(1, c2)[:-1])
+            if colm:
+                txt = f'({col1}{r1}:{colm}{r2 - 1 if r2 - 1 >= r1 else r1}):{col2}{r2}'
+                return txt, self.rect_addrs(rect)
         if k['multicolon'] and roll > 0.78 and r2 > r1 and c2 > c1:
             col1, col2 = rc_coord(1, c1)[:-1], rc_coord(1, c2)[:-1]
             txt = f'{col1}{r1}:{col1}{r2}:{col2}{r1}'
@@ -374,6 +384,8 @@ class SpecGen:
             return self.atom()
         txt, prec = ro
         fn = rnd.choice(AGGS)
+        if self.k.get('sumproduct') and rnd.random() < 0.08 and ' ' not in txt:
+            return f'SUMPRODUCT({txt})', prec, []
         if rnd.random() < 0.25:
             t2, p2, d2 = self.atom()
             return f'{fn}({txt},{t2})', prec + p2, d2
@@ -432,6 +444,16 @@ class SpecGen:
             a, pa, da = self.atom()
             b, pb, db = self.atom()
             return f'{a}{rnd.choice((">", "=", "<>", "<="))}{b}', pa + pb, da + db
+        if 0.96 <= roll < 0.975 and k.get('iferr') and k['ranges']:
+            # functions that behave differently inside an array formula: outside one a
+            # range argument is the "error" case
+            ro = self.range_operand()
+            if ro and ' ' not in ro[0]:
+                fn = rnd.choice(('IFERROR', 'IFERROR', 'IFNA'))
+                return f'{fn}({ro[0]},{rnd.choice((-1, 5, 0))})', [], ro[1]
+        if 0.975 <= roll < 0.985 and k.get('rowcol_noarg') and depth == 0:
+            # the same text in every cell, the value depends on where it stands
+            return rnd.choice(('ROW()*10', 'COLUMN()*10', 'ROW()*10', 'ROW()+COLUMN()')), [], ['@self']
         if roll < 0.99 and depth == 0 and k.get('computed_refs'):
             # a computed reference as the whole formula (value of another cell)
             t = self.pick_cell()
@@ -447,6 +469,19 @@ class SpecGen:
         if roll < 0.96 and k['ranges'] and depth == 0 and k.get('whole_range', True):
             # a range where a scalar is expected: pycel takes the top-left cell
             rect = self.pick_rect()
+            blanks = [c for c in self.cells if 'v' in c and c['v'] is None and
+                      split_addr(c['a'])[0] in self.filled]
+            if blanks and rnd.random() < 0.6:
+                # ... preferably a blank one: the formula then evaluates to "empty"
+                bs, bc = split_addr(rnd.choice(blanks)['a'])
+                br, bcol = coord_rc(bc)
+                cand = (bs, br, bcol, br + 1, bcol)
+                if all(a in self.by_addr for a in self.rect_addrs(cand)):
+                    rect = cand
+                else:
+                    cand = (bs, br, bcol, br, bcol + 1)
+                    if all(a in self.by_addr for a in self.rect_addrs(cand)):
+                        rect = cand
             if rect and rect not in self.cse_blocks:
                 return self.range_text(*rect), [self.rect_addrs(rect)[0]], self.rect_addrs(rect)[1:]
         return self.atom()
@@ -458,6 +493,7 @@ class SpecGen:
             t, p, d = self.expr()
             if p or d:
                 break
+        d = [x for x in d if x != '@self']
         return '=' + t, uniq(p), uniq(d + self.declared_extra)
 
     # -- whole workbook ---------------------------------------------------------
@@ -578,13 +614,21 @@ class SpecGen:
         # members of the block; the second one stands apart
         col0 = self.width[sheet] + 1 + 3 * n
         row0 = 1 + 4 * n
-        kind = rnd.choice(('lift', 'lift2', 'scalar', 'trim', 'fill', 'reduce'))
+        kind = rnd.choice(('lift', 'lift2', 'scalar', 'trim', 'fill', 'reduce', 'mixed', 'mixed'))
         th, tw = h, w
         prec = list(src)
         if kind == 'lift':
             f = f'={src_txt}*{rnd.choice((2, 0.5, -1))}'
         elif kind == 'lift2':
             f = f'={src_txt}+{src_txt}*{rnd.choice((1, 3))}'
+        elif kind == 'mixed':
+            # an array operand and a single (preferably formula) cell: that cell is first
+            # evaluated from inside the array formula when the block is evaluated first
+            fcells = [c['a'] for c in self.cells if 'f' in c and 'cse' not in c and
+                      split_addr(c['a'])[0] == sheet]
+            a = rnd.choice(fcells) if fcells and rnd.random() < 0.8 else self.pick_cell()
+            f = f'={src_txt}*10+{self.ref_text(a)}'
+            prec = list(src) + [a]
         elif kind == 'scalar':
             a = self.pick_cell()
             f = f'={self.ref_text(a)}*2'
